@@ -35,6 +35,7 @@ def Expr.nameFree : Expr → Bool
   | .ite c a b => c.nameFree && a.nameFree && b.nameFree
   | .abs a => a.nameFree                 -- `abs`, `min`, `max` are not names for `_expr_has_name`
   | .mm _ a b => a.nameFree && b.nameFree
+  | .toStr a => a.nameFree               -- `str` is one of `_SAFE_NAME_REFERENCES`
 
 /-- `_infer_expr_type` on the fragment -/
 def inferTy (te : C.TyEnv) : Expr → Ty
@@ -53,6 +54,7 @@ def inferTy (te : C.TyEnv) : Expr → Ty
   | .ite _ a b => if inferTy te a = inferTy te b then inferTy te a else .int
   | .abs _ => .int                       -- `_BUILTIN_CALL_RETURN_TYPES`
   | .mm _ _ _ => .int
+  | .toStr _ => .string                  -- `_BUILTIN_CALL_RETURN_TYPES["str"]`; also `JoinedStr`
 
 /-- `_eval_const` on a name-free expression: Python's own value -/
 def evalConst (e : Expr) : Option Val := if e.nameFree then (Py.eval [] e).toOption else none
